@@ -97,6 +97,8 @@ func c14Exec(p c14Program) (*sched.Result, []lcall) {
 						do(th, agentOp{Kind: "start", ID: 2, T: 4}, ci)
 					case 2:
 						do(th, agentOp{Kind: "stop", ID: 1}, ci)
+					case 3:
+						do(th, agentOp{Kind: "collect", T: 5}, ci)
 					}
 				}
 			}
@@ -139,6 +141,9 @@ func c14Exec(p c14Program) (*sched.Result, []lcall) {
 		if p.Init >= 2 {
 			_ = a.Start(agentID(1), agentTime(3))
 		}
+		if p.Init >= 3 {
+			_ = a.Start(agentID(2), agentTime(4))
+		}
 		for ti, ops := range p.Threads {
 			ops := ops
 			var tid int
@@ -164,6 +169,9 @@ func c14Linearizable(p c14Program, calls []lcall) bool {
 	}
 	if p.Init >= 2 {
 		model.Start("B", 3)
+	}
+	if p.Init >= 3 {
+		model.Start("C", 4)
 	}
 	used := make([]bool, n)
 	var rec func(m *ref.AgentModel, placed int) bool
@@ -358,6 +366,29 @@ func init() {
 								explored(c14Program{Init: init, Mode: mode, Threads: [][]agentOp{{c14Alphabet[i]}, {c14Alphabet[j]}, {c14Alphabet[k]}}})
 							}
 						}
+					}
+				}
+			}
+			// extended family: three registered transactions, one thread collecting / processing while another
+			// issues 3 operations that re-register, add and collect (overlapping Collect calls with several ids each)
+			ext := []agentOp{{Kind: "start", ID: 0, T: 1}, {Kind: "start", ID: 3, T: 1}, {Kind: "collect", T: 5}, {Kind: "stop", ID: 1}, {Kind: "process", ID: 2}}
+			firsts := [][]agentOp{{{Kind: "collect", T: 5}}, {{Kind: "collect", T: 5}, {Kind: "collect", T: 5}}, {{Kind: "process", ID: 0}, {Kind: "collect", T: 5}}}
+			for _, mode := range []int{0, 3} {
+				for _, f := range firsts {
+					for _, a1 := range ext {
+						for _, a2 := range ext {
+							for _, a3 := range ext {
+								explored(c14Program{Init: 3, Mode: mode, Threads: [][]agentOp{f, {a1, a2, a3}}})
+							}
+						}
+					}
+				}
+			}
+			// handler re-entering with Collect on the base programs of two threads x 1 operation
+			for init := 1; init <= 3; init++ {
+				for i := range c14Alphabet {
+					for j := i; j < len(c14Alphabet); j++ {
+						explored(c14Program{Init: init, Mode: 3, Threads: [][]agentOp{{c14Alphabet[i]}, {c14Alphabet[j]}}})
 					}
 				}
 			}
